@@ -43,6 +43,8 @@ pub trait Hook {
   fn plain_write(&self, addr: usize, len: usize);
   /// The backing memory `[addr, addr+len)` is about to be released.
   fn teardown(&self, addr: usize, len: usize);
+  /// The non-atomic write announced by `plain_write` has been performed.
+  fn plain_written(&self, _addr: usize, _len: usize) {}
 }
 
 thread_local! {
@@ -235,7 +237,8 @@ pub fn plain_write(addr: usize, len: usize) {
 /// write is reported with the very arguments it is called with.
 pub mod shadow_core {
   pub mod ptr {
-    /// Reports the write to the installed hook, then performs it.
+    /// Reports the write to the installed hook, performs it, and reports it once more (a crash-image
+    /// collector sees the memory before and after a bulk write that is not an atomic access).
     ///
     /// ## Safety
     /// Same contract as `core::ptr::write_bytes`.
@@ -243,7 +246,15 @@ pub mod shadow_core {
     pub unsafe fn write_bytes<T>(dst: *mut T, val: u8, count: usize) {
       crate::verif::plain_write(dst as usize, count.wrapping_mul(::core::mem::size_of::<T>()));
       unsafe { ::core::ptr::write_bytes(dst, val, count) }
+      crate::verif::plain_written(dst as usize, count.wrapping_mul(::core::mem::size_of::<T>()));
     }
+  }
+}
+
+#[inline]
+pub fn plain_written(addr: usize, len: usize) {
+  if let Some(h) = hook() {
+    h.plain_written(addr, len)
   }
 }
 
